@@ -1485,8 +1485,11 @@ class CodeGen:
         if isinstance(length, asm.IntLiteral):
             return asm.IntLiteral(self.array_size(data_type, length.data) & self.max_unsigned)
         if data_type == DataType.BOOL:
-            yield asm.Add(r_out, length, asm.IntLiteral(7))
+            # ceil(length / 8) as (length - 1) // 8 + 1: length + 7 would
+            # overflow for lengths within 7 of the largest signed word
+            yield asm.Sub(r_out, length, asm.IntLiteral(1))
             yield asm.Asr(r_out, asm.State(r_out), asm.IntLiteral(3))
+            yield asm.Add(r_out, asm.State(r_out), asm.IntLiteral(1))
         else:
             yield asm.Mul(r_out, length, asm.IntLiteral(self.frame_size(data_type)))
         return asm.State(r_out)
